@@ -59,6 +59,7 @@ structure St where
   tracks : List (Option Trk) := [none, none, none, none]
   prevImpl : String := ""       -- the implementation's previous dump (store or slot), for the atomicity oracle
   prevSlots : List String := ["NONE", "NONE", "NONE", "NONE"]
+  plan : Option (List String) := none   -- schedule plan for the next distance query
 
 /-! rendering (must equal the executor's) -/
 def optI (x : Option Int) : String := match x with | some v => toString v | none => "-"
@@ -128,7 +129,33 @@ def splitBar (impl : List String) : List (List String) :=
 def implParts (impl : List String) : String × String × String :=
   match splitBar impl with
   | [r, d, n] => (joinSp r, joinSp d, joinSp n)
+  | [r, d, n, _] => (joinSp r, joinSp d, joinSp n)
   | _ => ("?", "?", "?")
+
+/-- the schedule trace the executor appended: `T <timeouts> <k> <shard ids…>` -/
+def implTrace (impl : List String) : Option (Nat × List Nat) :=
+  match splitBar impl with
+  | [_, _, _, "T" :: to :: rest] => do
+    let to ← to.toNat?
+    let (l, _) ← natList rest
+    pure (to, l)
+  | _ => none
+
+/-- a trace is a path of the sharded-query protocol: every shard executes exactly one command per
+candidate, and the prescribed order (if any) was followed -/
+def traceOk (tr : Option (Nat × List Nat)) (plan : Option (List String)) (nShards nCands : Nat) : Bool × List String :=
+  match plan with
+  | none => (true, [])
+  | some p =>
+    match tr with
+    | none => (false, ["trace-missing"])
+    | some (timeouts, l) =>
+      let counts := (List.range nShards).all (fun k => (l.filter (· == k)).length == nCands)
+      let follows := match p with
+        | "order" :: _ :: ids => l.map toString == ids
+        | _ => true
+      (timeouts == 0 && counts && l.length == nShards * nCands && follows,
+       ["trace-validated"] ++ flag (l.length > 1 && l != l.mergeSort (fun a b => decide (a ≤ b))) "interleaved-shards")
 
 def showDists (v : List DistOk) : String :=
   let key (e : DistOk) : List Int := [e.frm, e.to, (e.attr.getD (-100000)), (e.feat.map (fun r => r.floor)).getD (-100000)]
@@ -230,6 +257,7 @@ def handleStore (st : St) (args impl : List String) : St × String :=
     let o1 := !atomicOp || !failed || (iDump == st.prevImpl && iNotes == toString buildNotes)
     ({ st with store := some s', prevImpl := iDump }, res k (o1 && k) flags s!"model={tok} |{d} | {n}")
   match args with
+  | "sched" :: p => ({ st with plan := some p }, res true true ["sched"] "plan recorded")
   | ["new", nT, aT, bT] =>
     match nT.toNat?, int? aT, int? bT with
     | some n, some a, some b =>
@@ -311,15 +339,20 @@ def handleStore (st : St) (args impl : List String) : St × String :=
               match natList (kT :: r2) with
               | some (ids, []) =>
                 let (d, e) := ownedDistances cbs s ids cls onlyBaked
-                finish st s s!"{showDists d} E {e}" 0
-                  (flag (d.length > 0) "results" ++ flag (e > 0) "errors" ++ flag ((ids.filterMap (find s)).length ≥ 2) "owned-multi") false
+                let (tok, tfl) := traceOk (implTrace impl) st.plan s.n (ids.filterMap (find s)).length
+                if !tok then (st, bad "schedule plan not realised (timeout / wrong trace)") else
+                finish { st with plan := none } s s!"{showDists d} E {e}" 0
+                  (flag (d.length > 0) "results" ++ flag (e > 0) "errors" ++ flag ((ids.filterMap (find s)).length ≥ 2) "owned-multi" ++ tfl ++
+                   flag (st.plan.isSome) ("plan-" ++ (st.plan.getD []).headD "")) false
               | _ => (st, bad "odist ids")
             else
               match cands k r2 [] 0 with
               | some (cs, nb, false) =>
                 let (d, e) := foreignDistances cbs s cs cls onlyBaked
-                finish st s s!"{showDists d} E {e}" nb
-                  (flag (d.length > 0) "results" ++ flag (e > 0) "errors" ++ flag (cs.length ≥ 2) "multi-cand" ++ flag onlyBaked "only-baked") false
+                let (tok, tfl) := traceOk (implTrace impl) st.plan s.n cs.length
+                if !tok then (st, bad "schedule plan not realised (timeout / wrong trace)") else
+                finish { st with plan := none } s s!"{showDists d} E {e}" nb
+                  (flag (d.length > 0) "results" ++ flag (e > 0) "errors" ++ flag (cs.length ≥ 2) "multi-cand" ++ flag onlyBaked "only-baked" ++ tfl) false
               | some (_, _, true) => (st, bad "candidate build fails (generator should avoid)")
               | none => (st, bad "fdist cands")
           | _, _ => (st, bad "dist args")
